@@ -46,14 +46,7 @@ def oracle_parsable(t):
         if re.fullmatch('[0-9]+', tok) and tok.isascii():
             vals.append(int(tok))
             continue
-        try:
-            int(tok.strip())
-        except ValueError:
-            return False            # Python cannot read it either: certainly not a code
-        grey = True                 # only int() accepts it: a terminal would not
-        vals.append(None)
-    if grey:
-        return None
+        return False                # not written in plain ASCII digits: not a code a terminal reads
     if vals[0] == 0:
         return False
     c = vals[0]
